@@ -45,13 +45,192 @@ static int h_inet_pton(int af, const char *src, void *dst) {
     h_transcript_note(tmp);
     return r;
 }
+/* ---- scripted TLS peer (C16): acts from inside poll() whenever the reader would block ---- */
+static SSL *h_tls_peer;
+static int h_tls_peerfd = -1;
+static char **h_tls_script;
+static int h_tls_nscript, h_tls_pos;
+static int h_tls_poll(struct pollfd *fds, nfds_t n, int timeout) {
+    if (!h_tls_script)
+        return poll(fds, n, timeout);
+    for (;;) {
+        int r = poll(fds, n, 0);
+        if (r != 0)
+            return r;
+        if (h_tls_pos >= h_tls_nscript)
+            return timeout < 0 ? -1 : 0;
+        {
+            char *ev = h_tls_script[h_tls_pos++];
+            if (ev[0] == 'w' || ev[0] == 'W') {
+                int l;
+                uint8_t *b = hx(ev + 2, &l);
+                if (l > 0 && h_tls_peer && SSL_write(h_tls_peer, b, l) != l)
+                    abort();
+                (free)(b);
+                if (ev[0] == 'W' && h_tls_peer) {
+                    SSL_shutdown(h_tls_peer);
+                    close(h_tls_peerfd);
+                    SSL_free(h_tls_peer);
+                    h_tls_peer = NULL;
+                    h_tls_peerfd = -1;
+                }
+                if (l > 0 || ev[0] == 'W')
+                    poll(fds, n, 1000);
+            } else if (ev[0] == 'e') {
+                if (h_tls_peer) {
+                    SSL_shutdown(h_tls_peer);
+                    close(h_tls_peerfd);
+                    SSL_free(h_tls_peer);
+                    h_tls_peer = NULL;
+                    h_tls_peerfd = -1;
+                }
+                poll(fds, n, 1000);
+            } else if (ev[0] == 't') {
+                if (timeout >= 0)
+                    return 0;
+            }
+        }
+    }
+}
+#define poll h_tls_poll
 #define X509_check_host h_X509_check_host
 #define X509_check_ip_asc h_X509_check_ip_asc
 #define inet_pton h_inet_pton
 #include "tlscommon.c"
+#undef poll
 #undef X509_check_host
 #undef X509_check_ip_asc
 #undef inet_pton
+
+/* ---- tlsstream: the real radtlsget/sslreadtimeout on a TLS session over loopback TCP ---- */
+static SSL_CTX *h_ctx_srv, *h_ctx_cli;
+static int h_tls_ctx_init(void) {
+    EVP_PKEY *k;
+    X509 *x;
+    X509_NAME *nm;
+    if (h_ctx_srv)
+        return 1;
+    k = EVP_RSA_gen(2048);
+    x = X509_new();
+    if (!k || !x)
+        return 0;
+    X509_set_version(x, 2);
+    ASN1_INTEGER_set(X509_get_serialNumber(x), 1);
+    X509_gmtime_adj(X509_getm_notBefore(x), -3600);
+    X509_gmtime_adj(X509_getm_notAfter(x), 3600 * 24 * 365);
+    X509_set_pubkey(x, k);
+    nm = X509_get_subject_name(x);
+    X509_NAME_add_entry_by_txt(nm, "CN", MBSTRING_ASC, (const unsigned char *)"verif", -1, -1, 0);
+    X509_set_issuer_name(x, nm);
+    if (!X509_sign(x, k, EVP_sha256()))
+        return 0;
+    h_ctx_srv = SSL_CTX_new(TLS_server_method());
+    h_ctx_cli = SSL_CTX_new(TLS_client_method());
+    if (!h_ctx_srv || !h_ctx_cli || SSL_CTX_use_certificate(h_ctx_srv, x) != 1 || SSL_CTX_use_PrivateKey(h_ctx_srv, k) != 1)
+        return 0;
+    SSL_CTX_set_verify(h_ctx_cli, SSL_VERIFY_NONE, NULL);
+    SSL_CTX_set_num_tickets(h_ctx_srv, 0);
+    return 1;
+}
+static int h_tcp_pair(int sv[2]) {
+    struct sockaddr_in a;
+    socklen_t al = sizeof(a);
+    int one = 1, l = socket(AF_INET, SOCK_STREAM, 0);
+    if (l < 0)
+        return -1;
+    memset(&a, 0, sizeof(a));
+    a.sin_family = AF_INET;
+    a.sin_addr.s_addr = htonl(INADDR_LOOPBACK);
+    if (bind(l, (struct sockaddr *)&a, sizeof(a)) || listen(l, 1) || getsockname(l, (struct sockaddr *)&a, &al))
+        return -1;
+    sv[1] = socket(AF_INET, SOCK_STREAM, 0);
+    if (sv[1] < 0 || connect(sv[1], (struct sockaddr *)&a, sizeof(a)))
+        return -1;
+    sv[0] = accept(l, NULL, NULL);
+    close(l);
+    if (sv[0] < 0)
+        return -1;
+    setsockopt(sv[1], IPPROTO_TCP, TCP_NODELAY, &one, sizeof(one));
+    setsockopt(sv[0], IPPROTO_TCP, TCP_NODELAY, &one, sizeof(one));
+    return 0;
+}
+/* tlsstream client|server <timeout> <event>..   as tcpstream, over TLS. client: the loop of tlsclientrd (reader is the TLS
+   client, a timeout is reported and reading goes on); server: the loop of tlsserverrd (any timeout ends the connection) */
+static int op_tlsstream(int argc, char **argv, FILE *out) {
+    int sv[2], timeout, client, i, rounds = 0;
+    SSL *rd, *peer;
+    pthread_mutex_t lock;
+    if (argc < 2 || !h_tls_ctx_init() || h_tcp_pair(sv))
+        return 0;
+    client = !strcmp(argv[0], "client");
+    timeout = atoi(argv[1]);
+    rd = SSL_new(client ? h_ctx_cli : h_ctx_srv);
+    peer = SSL_new(client ? h_ctx_srv : h_ctx_cli);
+    SSL_set_fd(rd, sv[0]);
+    SSL_set_fd(peer, sv[1]);
+    fcntl(sv[0], F_SETFL, fcntl(sv[0], F_GETFL, 0) | O_NONBLOCK);
+    fcntl(sv[1], F_SETFL, fcntl(sv[1], F_GETFL, 0) | O_NONBLOCK);
+    if (client) {
+        SSL_set_connect_state(rd);
+        SSL_set_accept_state(peer);
+    } else {
+        SSL_set_accept_state(rd);
+        SSL_set_connect_state(peer);
+    }
+    for (i = 0; i < 200; i++) { /* both ends in this thread: alternate until the handshake is complete */
+        int a = SSL_do_handshake(rd), b = SSL_do_handshake(peer);
+        if (a == 1 && b == 1)
+            break;
+        if ((a != 1 && SSL_get_error(rd, a) != SSL_ERROR_WANT_READ && SSL_get_error(rd, a) != SSL_ERROR_WANT_WRITE) ||
+            (b != 1 && SSL_get_error(peer, b) != SSL_ERROR_WANT_READ && SSL_get_error(peer, b) != SSL_ERROR_WANT_WRITE))
+            return 0;
+        {
+            struct pollfd p[2] = {{sv[0], POLLIN, 0}, {sv[1], POLLIN, 0}};
+            (poll)(p, 2, 100);
+        }
+    }
+    if (i == 200)
+        return 0;
+    /* the peer writes whole records at once: its socket may block */
+    fcntl(sv[1], F_SETFL, fcntl(sv[1], F_GETFL, 0) & ~O_NONBLOCK);
+    pthread_mutex_init(&lock, NULL);
+    h_tls_peer = peer;
+    h_tls_peerfd = sv[1];
+    h_tls_script = argv + 2;
+    h_tls_nscript = argc - 2;
+    h_tls_pos = 0;
+    fputs("stream", out);
+    for (;;) {
+        uint8_t *buf = NULL;
+        int len = radtlsget(rd, timeout, &lock, &buf);
+        if (buf && len > 0) {
+            fputs(" pkt:", out);
+            puthex(out, buf, len);
+            free(buf);
+        } else if (SSL_get_shutdown(rd)) {
+            fputs(" closed", out);
+            break;
+        } else if (client) {
+            fputs(" timeout", out);
+            if (h_tls_pos >= h_tls_nscript && ++rounds > 1)
+                break;
+        } else {
+            fputs(" timeout closed", out); /* tlsserverrd: no request in time, the connection is closed */
+            break;
+        }
+    }
+    h_tls_script = NULL;
+    SSL_free(rd);
+    close(sv[0]);
+    if (h_tls_peer) {
+        SSL_free(h_tls_peer);
+        close(h_tls_peerfd);
+    }
+    h_tls_peer = NULL;
+    h_tls_peerfd = -1;
+    pthread_mutex_destroy(&lock);
+    return 1;
+}
 
 static char *kv(int argc, char **argv, const char *key) {
     size_t n = strlen(key);
@@ -134,6 +313,8 @@ int h_tls_op(const char *op, int argc, char **argv, FILE *out) {
     char *v, *tok, *save, *realm = NULL, *tr;
     int ok, l;
     uint8_t *b;
+    if (!strcmp(op, "tlsstream"))
+        return op_tlsstream(argc, argv, out);
     if (strcmp(op, "vcert"))
         return 0;
     memset(&conf, 0, sizeof(conf));
